@@ -9,7 +9,7 @@ import numpy as np
 
 from vf.core import Workload
 from vf import taps, gen
-from vf.digest import digest, diff
+from vf.digest import digest, diff, writeable_flags
 
 ID = "C18"
 TECHNIQUE = "runtime monitoring: post-condition taps on every exported feature (all binding sites): array-vs-image differential, OLD digests, annotation carry-over, independent normaliser reference"
@@ -49,7 +49,7 @@ class FeatureMonitor(taps.Monitor):
         if isinstance(x, np.ndarray):
             if x.dtype.kind != "f" or not np.isfinite(x).all():
                 return None
-            return {"kind": "array", "x": x.copy(), "argd": digest([list(args[1:]), dict(kw)])}
+            return {"kind": "array", "x": x.copy(), "argd": digest([list(args[1:]), dict(kw)]), "w": bool(x.flags.writeable)}
         if not is_image(x) or x.pixels.dtype.kind != "f" or not np.isfinite(x.pixels).all():
             return None
         from menpo.image import BooleanImage
@@ -57,7 +57,7 @@ class FeatureMonitor(taps.Monitor):
             return None
         import copy
         return {"kind": "image", "d": digest(x), "px": x.pixels.copy(), "rest": copy.deepcopy(args[1:]), "kw": copy.deepcopy(dict(kw)),
-                "argd": digest([list(args[1:]), dict(kw)])}
+                "argd": digest([list(args[1:]), dict(kw)]), "w": writeable_flags(x)}
 
     def post(self, ctx, st, args, kw, r, exc):
         import menpo.image as mi
@@ -65,9 +65,12 @@ class FeatureMonitor(taps.Monitor):
         f = self.fname
         if digest([list(args[1:]), dict(kw)]) != st["argd"]:
             ctx.fail("feature_modified_one_of_its_arguments", cls=f, mech=",".join(sorted(kw)) or "positional")
+        how = "after_success" if exc is None else "after_" + type(exc).__name__
         if st["kind"] == "array":
             if not np.array_equal(x, st["x"]):
                 ctx.fail("feature_modified_its_input_array", cls=f)
+            if bool(x.flags.writeable) != st["w"]:
+                ctx.fail("feature_changed_the_writeability_of_its_input", cls=f, mech="array:" + how)
             if exc is None and isinstance(r, np.ndarray) and not np.isfinite(r).all():
                 ctx.fail("feature_produced_non_finite_values", cls=f, mech="array")
             return
@@ -76,6 +79,8 @@ class FeatureMonitor(taps.Monitor):
         mkind = "unmasked" if not masked else ("all_true" if x.mask.all_true() else "sparse")
         if digest(x) != st["d"]:
             ctx.fail("feature_modified_its_input_image", cls=f, mech=cls)
+        if writeable_flags(x) != st["w"]:
+            ctx.fail("feature_changed_the_writeability_of_its_input", cls=f, mech=cls + ":" + how)
         # the raw-array evaluation (reference evaluations run on a private copy)
         a_exc, a_res = None, None
         try:
